@@ -70,7 +70,7 @@ func c03RefValue(v string) bool {
 
 func HarnessC03Key() {
 	k := vndString(vndParam("N", 4))
-	got := checkKey(k)
+	got := c03KeyOK(k)
 	want := c03RefKey(k)
 	if got {
 		vndReach("accept")
@@ -80,23 +80,9 @@ func HarnessC03Key() {
 	vndAssert(got == want, "checkKey-equals-grammar")
 }
 
-// with symbolic length limits, to exercise the <= n boundaries that the
-// literals 255 / 240 / 13 hide at tractable string lengths
-func HarnessC03KeyPart() {
-	k := vndString(vndParam("N", 4))
-	n := vndChoice(4)
-	got := checkKeyPart(k, n)
-	vndAssert(got == c03RefSimple(k, n), "checkKeyPart-equals-grammar")
-	got2 := checkKeyTenant(k, n)
-	vndAssert(got2 == c03RefTenant(k, n), "checkKeyTenant-equals-grammar")
-	if got {
-		vndReach("accept")
-	}
-}
-
 func HarnessC03Value() {
 	v := vndString(vndParam("N", 4))
-	got := checkValue(v)
+	got := c03ValueOK(v)
 	if got {
 		vndReach("accept")
 	} else {
@@ -107,7 +93,7 @@ func HarnessC03Value() {
 
 func HarnessC03Vacuity() {
 	k := vndString(2)
-	if checkKey(k) {
+	if c03KeyOK(k) {
 		vndAssert(false, "vacuity")
 	}
 }
@@ -281,4 +267,16 @@ func HarnessC03Delete() {
 	vndAssert(c03SameList(got.list, want), "delete-removes-exactly-key")
 	c03CheckParsed(got, "delete")
 	vndAssert(got.Get(k) == "", "delete-get-empty")
+}
+
+// key / value validity through the public entry point only (the private
+// validators may be restructured): Insert validates both
+func c03KeyOK(k string) bool {
+	_, err := TraceState{}.Insert(k, "v")
+	return err == nil
+}
+
+func c03ValueOK(v string) bool {
+	_, err := TraceState{}.Insert("k", v)
+	return err == nil
 }
